@@ -3,6 +3,7 @@ package locate
 import (
 	"context"
 	"errors"
+	"sync/atomic"
 	"time"
 
 	"github.com/pingcap/kvproto/pkg/errorpb"
@@ -359,4 +360,37 @@ func ZZ_C10_validate_read_ts() {
 	req2.StoreTp = tikvrpc.TiDB
 	n := sw.val.calls
 	zzAssert(sw.sender.validateReadTS(context.Background(), req2) == nil && sw.val.calls == n, "C10.tidb-not-validated")
+}
+
+// ZZ_C10_send_script_forwarding: the same postconditions with forwarding enabled on a three-replica
+// region whose leader store cannot be reached directly (probes: leader unreachable, followers
+// reachable). The leader store may already be known as unreachable from an earlier call, so that the
+// first attempt of this call is a forwarded one; the script (at most `c10fwd` entries from RPC error,
+// deadline, NotLeader with hint, ServerIsBusy) decides what each hop answers.
+func ZZ_C10_send_script_forwarding() {
+	budget := 40000
+	sw := zzNewSendWorld(budget, 3)
+	defer sw.w.c.Close()
+	c := sw.w.c
+	c.enableForwarding = true
+	r := c.GetCachedRegionWithRLock(sw.ver)
+	leader, _, _, _ := r.WorkStorePeer(r.getStore())
+	c.stores.setMockRequestLiveness(func(ctx context.Context, s *Store) livenessState {
+		if s == leader {
+			return unreachable
+		}
+		return reachable
+	})
+	if zzBool("leader_known_unreachable") {
+		atomic.StoreUint32(&leader.livenessState, uint32(unreachable))
+	}
+	modes := [...]int{0, 1}
+	req, write := zzRequest(modes[zzChoice("mode", 2)])
+	alpha := [...]int{zzEvRPCError, zzEvDeadline, zzEvNotLeaderHint, zzEvServerBusy}
+	names := [...]string{"ev0", "ev1", "ev2", "ev3"}
+	n := zzChoice("scriptlen", zzParam("c10fwd", 2)+1)
+	for i := 0; i < n; i++ {
+		sw.cl.script = append(sw.cl.script, alpha[zzChoice(names[i], len(alpha))])
+	}
+	zzSendAndCheck(sw, req, write, budget)
 }
